@@ -354,8 +354,8 @@ def run_check(prop_factory, tier):
     from . import srcfacts
     try:
         sf = srcfacts.check(pid)
-    except core.Infra:
-        raise
+    except core.Infra as e:
+        print(f"INFRA: {e}"); return 2
     except Exception:
         print("INFRA: source facts could not be generated: " + traceback.format_exc()[-1500:]); return 2
     if sf["failed_for_property"]:
